@@ -86,6 +86,9 @@ DumpWhy(o, S) ==
     THEN "a variable the program never assigned holds a value"
   ELSE IF \E j \in DOMAIN o.vars : o.vars[j].lock
     THEN "a variable is left read-only"
+  \* the value of a variable belongs to the variable (owner flag): without it an operator writes its result into the variable
+  ELSE IF \E j \in DOMAIN o.vars : "own" \in DOMAIN o.vars[j] /\ ~o.vars[j].own
+    THEN "the value of variable " \o o.vars[CHOOSE j \in DOMAIN o.vars : "own" \in DOMAIN o.vars[j] /\ ~o.vars[j].own].n \o " is not owned by it any more (an operator may overwrite it in place)"
   ELSE IF \E j \in DOMAIN o.vars : o.vars[j].safe # IsSafeName(o.vars[j].n)
     THEN "a type constraint is left on (or missing from) a variable"
   ELSE IF \E j \in DOMAIN o.vars : o.vars[j].n \in DOMAIN S.vars /\ TypeOf(S.vars[o.vars[j].n]).m # "any"
@@ -356,6 +359,18 @@ StepResult(st, o, c, sc) ==
                    [C |-> PutCtx(c, st.ctx, [State0 EXCEPT !.unk = TRUE]),
                     why |-> IF o.oc \in {"ok", "parse_error", "runtime_error"} THEN "" ELSE "outcome outside the alphabet: " \o o.oc]
               ELSE [C |-> PutCtx(c, st.ctx, Settle(S)), why |-> w]
+    [] st.op = "dump" /\ Has(st, "unchanged_since") ->
+         \* C05 relation: evaluating an expression changes no variable (compared with the dump taken before), and every
+         \* variable still owns its value
+         LET b == sc.obs[st.unchanged_since]
+             diff == {j \in DOMAIN b.vars : ~\E q \in DOMAIN o.vars : o.vars[q].n = b.vars[j].n /\ VSame(o.vars[q].val, b.vars[j].val) /\ o.vars[q].sty = b.vars[j].sty} IN
+         [C |-> c, why |->
+            IF diff # {} THEN "evaluating the expression changed variable " \o b.vars[CHOOSE j \in diff : TRUE].n
+            ELSE IF \E j \in DOMAIN o.vars : "own" \in DOMAIN o.vars[j] /\ ~o.vars[j].own
+              THEN "the value of variable " \o o.vars[CHOOSE j \in DOMAIN o.vars : "own" \in DOMAIN o.vars[j] /\ ~o.vars[j].own].n \o " is not owned by it any more (an operator may overwrite it in place)"
+            ELSE IF ~AllUniform(o) THEN "a table is not uniform or a tuple does not match its structure"
+            ELSE IF ~NoResidue(o) THEN "control state left behind" ELSE ""]
+    [] st.op = "dump" /\ Has(st, "free") -> [C |-> c, why |-> ""]
     [] st.op = "dump" -> [C |-> c, why |-> DumpWhy(o, CtxOf(c, st.ctx))]
     [] st.op = "clone" -> [C |-> PutCtx(c, st.ctx, CtxOf(c, st.from)), why |-> ""]
     [] st.op = "purge" -> [C |-> PutCtx(c, st.ctx, State0), why |-> ""]
